@@ -1,12 +1,12 @@
 package sims
 
 import (
-	"strings"
 	"bytes"
 	"crypto/x509"
 	"fmt"
 	"math/big"
 	"net/http"
+	"strings"
 	"sync"
 	"time"
 
@@ -143,6 +143,18 @@ func (k *Kit) Reply(beh string, withST bool) netsim.Reply {
 	}
 	k.mu.Unlock()
 	r := k.build(beh)
+	if r.Header == nil && r.Body != nil && (r.Status == 0 || r.Status == 200) && r.Err == nil {
+		// the media type label of the reply, in the spellings real responders
+		// use (parameterised, other letter case, exact, none at all): it is the
+		// same media type every time
+		sum := k.Pos
+		for _, ch := range []byte(beh) {
+			sum += int(ch)
+		}
+		if l := []string{"application/ocsp-response; charset=binary", "application/ocsp-response", "Application/OCSP-Response", ""}[sum%4]; l != "" {
+			r.Header = http.Header{"Content-Type": []string{l}}
+		}
+	}
 	cls := OCSPClass(beh, withST, k.Pos+1 == k.F.Len-1)
 	r.Class = beh
 	r.Good = cls == ClsOK
